@@ -29,11 +29,12 @@ ASSUMPTIONS = [
     "a size limit large enough that eviction never interferes (eviction is C18's subject)",
     "ControlledPool reproduces ThreadPool.imap(chunksize=5); pool threads of a failed request keep running (daemon threads are not joined by terminate())",
 ]
-REQUIRED_CATEGORIES = ["fault_fired", "request_raised", "uri_omitted", "crash_recovered", "refetched_after_failure",
+REQUIRED_CATEGORIES = ["corrupted_entry", "fault_fired", "request_raised", "uri_omitted", "crash_recovered", "refetched_after_failure",
                        "rejected_entry_refetched", "prefix_hit_intact", "parallel_fault", "orphan_thread_outlived_request"]
 
 S = lab.SCHEME
 A, B, C_ = S + "a", lab.ALT_SCHEME + "b", S + "c"  # b is served by a second resource
+D = S + "d"  # never part of a faulted request: requested first in the "other_first" follow-up
 CPP = "postprocess=p:" + S + "c<<pp"
 AVAL = "validate=v:" + S + "a"
 BVALPP = "validate=v;postprocess=p:" + lab.ALT_SCHEME + "b<<vp"
@@ -77,13 +78,15 @@ def followups(request, universe):
         "reopen_retry": [("reopen",), ("get", request)],
         "reopen2_singles": [("reopen",), ("reopen",)] + singles,
         "retry_reopen_retry": [("get", request), ("reopen",), ("get", request)],
+        "retry_retry": [("get", request), ("get", request)],
+        "other_first": [("get", [D])] + singles,
     }
 
 
 class Exec:
     """One execution of (prefix, request, plan, follow-up) with the C19 oracle."""
 
-    FAIL_KINDS = ("raise_before", "raise_half", "pp_raise_before", "pp_raise_half")
+    FAIL_KINDS = ("raise_before", "raise_half", "pp_raise_before", "pp_raise_half", "notfound_now")
 
     def __init__(self, c, scen, plan, fu_name, sched_prefix=(), interleave=False):
         self.c = c
@@ -99,6 +102,7 @@ class Exec:
         self.cached_intact = set()  # key uris cached by the prefix: must stay hits
         self.must_refetch = set()  # key uris that must be fetched afresh at their next request
         self.fired = []
+        self.corrupted = None
 
     def v(self, check, what):
         self.viol.append((check, what))
@@ -128,7 +132,7 @@ class Exec:
 
     def run(self):
         scen = self.scen
-        w = lab.World(size_bytes=LIMIT, parallel=scen["parallel"], allow_missing=scen["allow_missing"],
+        w = lab.World(size_bytes=scen.get("limit", LIMIT), parallel=scen["parallel"], allow_missing=scen["allow_missing"],
                       prefix=self.sched_prefix)
         self.world = w
         self.first_sched = w.sched
@@ -161,7 +165,10 @@ class Exec:
         snap = w.crashed
         w.crashed = None
         scen = self.scen
-        w2 = lab.World(size_bytes=LIMIT, parallel=scen["parallel"], allow_missing=scen["allow_missing"], path=snap)
+        # with a size limit close to the working set a killed request can leave more bytes on disk than the limit;
+        # reopening then needs do_cache_eviction_on_startup=True (documented constructor behaviour, not C19's subject)
+        w2 = lab.World(size_bytes=scen.get("limit", LIMIT), parallel=scen["parallel"], allow_missing=scen["allow_missing"], path=snap,
+                       evict_on_start="limit" in scen)
         self._worlds.append(w2)
         self.world = w2
         self.c.cat("crash_recovered")
@@ -192,8 +199,8 @@ class Exec:
                     if name == who:
                         self.must_refetch.add(key)
                         self.cached_intact.discard(key)
-            if site == "val":
-                c.cat("validation_rejected")
+            if site in ("val", "ext"):
+                c.cat("validation_rejected" if site == "val" else "corrupted_entry")
                 key = self.path_uri.get(who)
                 if key is not None:
                     self.cached_intact.discard(key)
@@ -218,9 +225,21 @@ class Exec:
             self.check_paths(req, out[1], "prefix")
             for r in req:
                 self.cached_intact.add(parse(r)[0])
-        # ---- the faulted request
-        w.install_plan(self.plan)
+        # ---- an external deviation before the faulted request: a cached file gets corrupted on disk
+        ext = self.plan.get(("ext", 0))
+        w.install_plan({k: v for k, v in self.plan.items() if k[0] != "ext"})
         self.fault_log_start = len(w.log)
+        if ext is not None:
+            target = ext.split(":", 1)[1]
+            hit = [b for b, key in self.path_uri.items() if key == target]
+            if hit:
+                pth = os.path.join(w.path, hit[0])
+                st = os.stat(pth)
+                with open(pth, "wb") as fp:
+                    fp.write(b"corrupted on disk")
+                lab._real_utime(pth, (st.st_atime, st.st_mtime))
+                w.fired.append(("ext", 0, "corrupt", hit[0]))
+                self.corrupted = target
         request = scen["request"]
         out, contacted = self._get(w, request)
         self.fired = list(w.fired)
@@ -278,7 +297,7 @@ class Exec:
         for op in scen["followups"][self.fu_name]:
             if op[0] == "reopen":
                 try:
-                    wcur.reopen(False)
+                    wcur.reopen("limit" in self.scen)
                 except Exception as exc:  # noqa
                     self.v("reopen failed", f"reopening the cache raised {type(exc).__name__}: {exc}")
                     return
@@ -305,6 +324,15 @@ class Exec:
                     continue
                 self.v("follow-up raised", f"fault-free follow-up request {req} raised {type(out[1]).__name__}: {out[1]}")
                 continue
+            for f in new_faults:
+                if f[0] == "dl" and f[2] == "notfound_now" and out[0] == "ok":
+                    n_dl = sum(1 for x in contacted if x == f[3])
+                    n_nf = sum(1 for g in new_faults if g[0] == "dl" and g[2] == "notfound_now" and g[3] == f[3])
+                    if n_dl <= n_nf:
+                        for r in req:
+                            if parse(r)[1] == f[3] and r in served:
+                                self.v("served although its fetch failed",
+                                       f"follow-up {req}: the resource reported {r} as not found, but a path was returned for it")
             for r in req:
                 key, name, _, _ = parse(r)
                 exp = expected(r)
@@ -357,11 +385,15 @@ def scenarios(tier):
         "aval_b": [AVAL, B],
         "bvalpp_c": [BVALPP, C_],
     }
-    prefixes = {"none": [], "a": [[A]], "ab": [[A, B]], "aval_bvp": [[AVAL, BVALPP]]}
+    prefixes = {"none": [], "a": [[A]], "ab": [[A, B]], "aval_bvp": [[AVAL, BVALPP]],
+                # the entries are cached and have been ACCEPTED by the validator once before the faulted request
+                "ab+accepted": [[A, B], [AVAL, B]], "bvp+accepted": [[BVALPP], [BVALPP]]}
     out = []
     for rn, req in reqs.items():
         for pn, pre in prefixes.items():
-            if pn == "aval_bvp" and rn not in ("aval_b", "bvalpp_c"):
+            if pn in ("aval_bvp", "ab+accepted", "bvp+accepted") and rn not in ("aval_b", "bvalpp_c"):
+                continue
+            if (pn, rn) in (("ab+accepted", "bvalpp_c"), ("bvp+accepted", "aval_b")):
                 continue
             for par in (False, True):
                 for allow in (True, False):
@@ -369,6 +401,11 @@ def scenarios(tier):
                     out.append({"name": f"{rn}|pre={pn}|{'par' if par else 'seq'}|{'tolerant' if allow else 'strict'}",
                                 "request": req, "prefix": pre, "parallel": par, "allow_missing": allow,
                                 "universe": universe})
+    # a size limit close to the working set: files that a failed request left on disk must not make the
+    # cache evict (or lose) good entries of later requests
+    for par in (False, True):
+        out.append({"name": f"bac|pre=none|{'par' if par else 'seq'}|tolerant|limit2500", "request": reqs["bac"], "prefix": [],
+                    "parallel": par, "allow_missing": True, "universe": sorted(set(reqs["bac"])), "limit": 2500})
     small = [S + "s%d" % i for i in range(7)]
     big = [("six", small[:6]), ("seven_pp", small[:3] + ["postprocess=p:" + small[3] + "<<pp"] + small[4:7]),
            # the same URI twice in one request, in different chunks of the pool (positions 0 and 5)
@@ -464,6 +501,26 @@ def run_unit(unit):
                     for dk in ("raise_before", "raise_half", "crash_half"):
                         for fu in fus:
                             execute({("val", n): vk, ("dl", m): dk}, fu)
+    # a cached entry is corrupted on disk before a request that validates it: it must be rejected and re-fetched
+    # (also when the validator has accepted that entry earlier in the session)
+    cached_before = {parse(u)[0] for p_ in scen["prefix"] for u in p_}
+    for r in scen["request"]:
+        key, name, _, has_val = parse(r)
+        if has_val and key in cached_before and not unit.get("notfound"):
+            for fu in fus:
+                execute({("ext", 0): "corrupt:" + key}, fu)
+            for m in range(counts.get("dl", 0) + 1):
+                for fu in ("retry", "reopen_retry", "singles"):
+                    execute({("ext", 0): "corrupt:" + key, ("dl", m): "raise_half"}, fu)
+    # an earlier URI of a failed request was already fetched (its file may be on disk, unregistered); before the
+    # retry the remote object disappears: the retry must omit it (or raise), and fetch it afresh later
+    if not unit.get("notfound") and 2 <= len(scen["request"]) <= 3 and not scen["prefix"] and "limit" not in scen:
+        nreq = len(scen["request"])
+        for j in range(1, counts.get("dl", 0)):
+            for i in range(nreq):
+                plan = {("dl", j): "raise_half", ("dl", j + 1 + i): "notfound_now"}
+                for fu in ("retry_retry", "retry_reopen_retry"):
+                    execute(plan, fu)
     # 2 faults (thorough): second fault at a later call of any site (also during the follow-up)
     if tier == "thorough" and not unit.get("notfound") and len(scen["request"]) <= 3:
         for p1 in single:
